@@ -329,3 +329,31 @@ def register(M):
       "                if isinstance(subval, valid_func_types):\n                    if not _recurse(subval, module):",
       "                if isinstance(subval, valid_func_types) and not subkey.startswith('__'):\n                    if not _recurse(subval, module):",
       'dynamic walk skips dunder methods')
+
+    # ---- C17 ---------------------------------------------------------------
+    M('C17_isvalid', ['C17'], 'utils/util_import.py',
+      "            if not exists(join(subdir, '__init__.py')):\n                return False", "            if not exists(subdir):\n                return False",
+      '__init__ chain check removed')
+    M('C17_prec', ['C17'], 'utils/util_import.py',
+      "        modpath = join(dpath, _fname_we)\n        if exists(modpath):\n            if isfile(join(modpath, '__init__.py')):\n                if _isvalid(modpath, dpath):\n                    return modpath\n",
+      "        for fname in candidate_fnames[:1]:\n            modpath = join(dpath, fname)\n            if isfile(modpath):\n                if _isvalid(modpath, dpath):\n                    return modpath\n        modpath = join(dpath, _fname_we)\n        if exists(modpath):\n            if isfile(join(modpath, '__init__.py')):\n                if _isvalid(modpath, dpath):\n                    return modpath\n",
+      'a source file takes precedence over a package directory of the same name')
+    M('C17_split', ['C17'], 'utils/util_import.py',
+      "    while exists(join(dpath, '__init__.py')):\n        dpath, dname = split(dpath)",
+      "    while exists(join(dpath, '__init__.py')) and len(_relmod_parts) < 3:\n        dpath, dname = split(dpath)",
+      'split_modpath stops after two package levels')
+    M('C17_initname', ['C17'], 'utils/util_import.py',
+      "    modpath_ = normalize_modpath(modpath_, hide_init=hide_init,\n                                 hide_main=hide_main)\n    if relativeto:",
+      "    modpath_ = normalize_modpath(modpath_, hide_init=hide_init and not modpath_.endswith('__init__.py'),\n                                 hide_main=hide_main)\n    if relativeto:",
+      'modpath_to_modname keeps __init__ when given the __init__.py file')
+    M('C17_ctxpop', ['C17', 'C12'], 'utils/util_import.py',
+      "        else:\n            sys.path.pop(self.index)\n\n\ndef _custom_import_modpath",
+      "        elif ex_type is None:\n            sys.path.pop(self.index)\n\n\ndef _custom_import_modpath",
+      'PythonPathContext does not pop its entry when the import raised')
+    M('C17_dirpkg', ['C17'], 'utils/util_import.py',
+      "            if isfile(join(modpath, '__init__.py')):\n                if _isvalid(modpath, dpath):\n                    return modpath\n\n        # If that fails",
+      "            if isdir(modpath):\n                if _isvalid(modpath, dpath):\n                    return modpath\n\n        # If that fails",
+      'a leaf directory without __init__.py is accepted as a package')
+    M('C17_abi', ['C17'], 'utils/util_import.py',
+      "    if '.' in modname:\n        modname, abi_tag = modname.split('.', 1)\n", "",
+      'ABI tag of extension modules not removed from the module name')
